@@ -179,8 +179,10 @@ def batch(prop, tier, base_seed, start, count, deadline, presets=None):
         agg['sim_seconds'] += r['sim_seconds']
         agg['steps'] += r['steps']
         if want:
+            tr = [l for l in r['trace'] if not l.startswith(('w ', 'callLater', 'cancel'))]
             agg['samples'].append({'run_index': idx, 'seed': seed, 'preset': preset,
-                                   'config': r['config'], 'trace': r['trace'][:60]})
+                                   'config': r['config'], 'decisions': r['decisions'][:200],
+                                   'trace': tr[:40] + (['...'] + tr[-40:] if len(tr) > 80 else tr[40:80])})
         v = r['violation']
         if v:
             k = known_match(known, prop, v[0], v[1])
@@ -489,8 +491,10 @@ def _merge(total, a):
     total['steps'] += a['steps']
     total['known'].update(a['known'])
     total['errors'].extend(a['errors'])
-    if len(total['samples']) < 3:
-        total['samples'].extend(a['samples'][:1])
+    total['samples'].extend(a['samples'][:1])
+    # keep a few, seeded runs before sweep presets
+    total['samples'].sort(key=lambda x: (x.get('preset') is not None, x['run_index']))
+    del total['samples'][4:]
     for kk, v in a['violations'].items():
         if kk not in total['violations']:
             total['violations'][kk] = v
